@@ -277,9 +277,16 @@ theorem reduce_eq (f : Frac) : f.reduce = f := by
   unfold Frac.reduce Frac.numerator Frac.denominator
   rw [num_div_den']
 
+/-- an operand the code can turn into a Fraction is no sequence -/
+theorem isSeq_of_coerce {o' : Frac} {o : Operand} (h : coerce o = .ok o') : o.isSeq = false := by
+  cases o with
+  | seq => simp [coerce] at h
+  | frac _ => rfl
+  | num _ => rfl
+
 theorem mul_of_coerce {s o' : Frac} {o : Operand} (h : coerce o = .ok o') : s.mul o = .ok ⟨s.x * o'.x⟩ := by
-  unfold Frac.mul; rw [h]
-  simp only
+  unfold Frac.mul; rw [h, isSeq_of_coerce h]
+  simp only [Bool.false_eq_true, if_false]
   have hd : s.denominator * o'.denominator ≠ 0 := by
     unfold Frac.denominator
     exact mul_ne_zero (by exact_mod_cast s.x.den_nz) (by exact_mod_cast o'.x.den_nz)
@@ -292,6 +299,11 @@ theorem mul_of_coerce {s o' : Frac} {o : Operand} (h : coerce o = .ok o') : s.mu
   have e2 := num_div_den' o'.x
   push_cast at e1 e2
   rw [e1, e2]
+
+theorem rmul_of_coerce {s o' : Frac} {o : Operand} (h : coerce o = .ok o') : s.rmul o = .ok ⟨s.x * o'.x⟩ := by
+  unfold Frac.rmul; rw [isSeq_of_coerce h]
+  simp only [Bool.false_eq_true, if_false]
+  exact mul_of_coerce h
 
 theorem inv_eq {s : Frac} (h : s.x ≠ 0) : s.inv = .ok ⟨1 / s.x⟩ := by
   unfold Frac.inv; rw [if_neg h]; exact ofInts_rat _
